@@ -31,7 +31,10 @@ use std::path::{Path, PathBuf};
 use std::process::{Command, Stdio};
 use std::sync::atomic::{AtomicUsize, Ordering};
 
-const TARGET_DIR: &str = "/verif/work/cli-target";
+const TARGET_DIR_DEFAULT: &str = "/verif/work/cli-target";
+fn target_dir() -> String {
+    std::env::var("VERIF_CLI_TARGET").unwrap_or_else(|_| TARGET_DIR_DEFAULT.to_string())
+}
 const SIG_NON_UNICODE: &str = "non-unicode-argument-with-config-file";
 
 // ---------------------------------------------------------------------------------------------
@@ -1068,8 +1071,8 @@ fn judge(c: &Case, o: &Outcome, resp: &str, rep: &mut Report) {
 pub fn build_binary() -> Result<PathBuf, String> {
     let out = Command::new("cargo")
         .args(["build", "--offline", "--bin", "comrak"])
-        .current_dir("/repo")
-        .env("CARGO_TARGET_DIR", TARGET_DIR)
+        .current_dir(crate::util::repo_root())
+        .env("CARGO_TARGET_DIR", target_dir())
         .env("CARGO_NET_OFFLINE", "true")
         // same arithmetic / assertion semantics as the library linked into this harness (release profile):
         // otherwise library-internal debug assertions would show up as differences that are not the CLI's
@@ -1084,7 +1087,7 @@ pub fn build_binary() -> Result<PathBuf, String> {
         let tail: String = err.lines().filter(|l| l.contains("error")).take(8).collect::<Vec<_>>().join(" | ");
         return Err(format!("cargo build --bin comrak failed: {}", tail));
     }
-    let p = PathBuf::from(TARGET_DIR).join("debug").join("comrak");
+    let p = PathBuf::from(target_dir()).join("debug").join("comrak");
     if p.exists() {
         Ok(p)
     } else {
